@@ -19,6 +19,8 @@ def opt_variants(r, n):
     out = []
     for i in range(n):
         rl, rg, hl = RENAME_SETS[r.randrange(len(RENAME_SETS))]
+        if r.random() < 0.35:
+            rg = 1
         base = options.default() if r.random() < 0.4 else (options.all_off() if r.random() < 0.7 else options.random_set(r))
         base['rename_locals'], base['rename_globals'], base['hoist_literals'] = bool(rl), bool(rg), bool(hl)
         if r.random() < 0.15:
@@ -33,7 +35,7 @@ def gen_cases(tier, seed):
     r = common.rng(seed, 'C03')
     cases = []
     if tier == 'quick':
-        scope_cases = list(scopegen.enumerate_cases(max_stmt_depth=2, expr_depth=(0, 1), sample=3500, seed=seed)) + list(scopegen.sampled_cases(seed, 1200))
+        scope_cases = list(scopegen.stratified_cases(seed)) + list(scopegen.sampled_cases(seed, 600))
         nopt = 1
     else:
         scope_cases = list(scopegen.enumerate_cases(max_stmt_depth=2, expr_depth=(0, 1))) + list(scopegen.sampled_cases(seed, 20000))
